@@ -53,7 +53,7 @@ if __name__ == "__main__":
     if "--props" in args:
         i = args.index("--props"); props = args[i+1].split(","); del args[i:i+2]
     res = main(args, props)
-    path = BENIGN / "RESULTS.json"
+    path = Path(os.environ["BENIGN_RESULTS"]) if os.environ.get("BENIGN_RESULTS") else BENIGN / "RESULTS.json"
     old = json.loads(path.read_text()) if path.exists() else {}
     old.update(res)
     path.write_text(json.dumps(old, indent=1, sort_keys=True))
